@@ -266,6 +266,14 @@ pub fn gen_string(d: &mut Dec) -> String {
             let secs = dt.timestamp().clamp(-30_610_224_000, 253_402_300_799);
             let dt = DateTime::<Utc>::from_timestamp(secs, dt.timestamp_subsec_nanos()).unwrap();
             let text = dt.to_rfc3339_opts(SecondsFormat::AutoSi, d.bool());
+            // sometimes one character of the text is replaced by a sign, blank or punctuation mark (almost always no
+            // date-time any more; whatever the type's own reader says)
+            if d.below(8) == 7 {
+                let mut cs: Vec<char> = text.chars().collect();
+                let at = d.below(cs.len());
+                cs[at] = *d.pick(&[' ', '+', '-', '.', '/', ',', ':', '0', 'O', '\u{a0}']);
+                return cs.into_iter().collect();
+            }
             // sometimes one of the relaxed spellings chrono's reader documents
             match d.below(10) {
                 0 => text.replace('T', " "),
